@@ -582,6 +582,10 @@ class SyncInterpreter(BaseInterpreter[TContext, TEvent]):
                 transition.source.id,
                 exc_info=True,
             )
+            # 🧹 Cancel what the entries of the failed transition started — see
+            #    the matching comment in `BaseInterpreter._execute_transition`.
+            for node in self._active_state_nodes - snapshot_before_transition:
+                self._cancel_state_tasks(node)
             self._active_state_nodes.clear()
             self._active_state_nodes.update(snapshot_before_transition)
 
